@@ -214,6 +214,9 @@ class Case final : public sim::CaseBase {
     for (std::size_t i = 0; i < kCanaryBytes; ++i) {
       buf[i] = 0xC5;
     }
+    // race build: the waiter reuses its dead frame; a completion that still touches the returned wait's event is then an
+    // access that is not ordered before this write (C04: nothing is accessed after its owner destroyed it)
+    sim::RaceWrite(const_cast<unsigned char*>(buf), kCanaryBytes);
     sim::SleepNs(5'000'000);  // all producers are done after this
     std::size_t bad = kCanaryBytes;
     for (std::size_t i = 0; i < kCanaryBytes; ++i) {
